@@ -91,12 +91,12 @@ CHECKS = {
         "yields m_wrappee and &m_wrappee; nothing rebinds the stored pointer; assignment, swap and equality act on the referents of both operands.",
    note="Checked with clang++ -std=gnu++17 and g++ -std=gnu++14 (quick) and both compilers x C++14/17/20 (thorough); const rvalue sources may map to a const value; lifetime misuse in user code is out of scope."),
  "C14": dict(level="other", design="4.12",
-   technique="call-site/effect lint closed under library helpers, interval check of byte reads, cursor discipline by a linear symbolic step of the block loop (cursor/remaining deltas, load offsets against the guard) and a per-remainder evaluation of the tail, and agreement of the normalised operation sequence with the reference MurmurHash2/64A",
+   technique="call-site/effect lint closed under library helpers, interval check of byte reads, cursor discipline by a linear symbolic step of the block loop (cursor/remaining deltas, load offsets against the guard) and a per-remainder evaluation of the tail, and equality of the dataflow summary (initial value, per-block update, post-loop value per remainder as expression trees, helpers and locals followed) with the reference MurmurHash2/64A",
    text="Decides structural necessary conditions: entry points forward (buffer,length,seed) unchanged to the right kernel; std::hash<xbasic_fixed_string> "
         "hashes exactly (data(), size(), constant); no pointer-to-integer conversion, non-local state, foreign callee or wider-pointer block load in the "
-        "call graph; every byte read entering arithmetic is zero-extended; in the 32-bit kernel the cursor advances by what the remaining length loses, each block load lies inside the bytes the loop guard guarantees and for every remainder 0..3 the tail reads exactly cursor[0..r-1]; in the 64-bit kernel the loop runs to start + (length & ~7) in steps of 8 with loads inside the block and load_bytes(end, length & 7) runs only under (length & 7) != 0; and the canonicalised "
-        "statement sequence of the three kernels equals the reference algorithm (constants, shifts, order). Value equality for every input is not decided as such.",
-   note="Reference sequences are transcribed in sa/rules/c14.py; a restructured kernel is reported as analysis-broken (exit 2), never as a violation; x86-64 only."),
+        "call graph; every byte read entering arithmetic is zero-extended; in the 32-bit kernel the cursor advances by what the remaining length loses, each block load lies inside the bytes the loop guard guarantees and for every remainder 0..3 the tail reads exactly cursor[0..r-1]; in the 64-bit kernel the loop runs to start + (length & ~7) in steps of 8 with loads inside the block and load_bytes(end, length & 7) runs only under (length & 7) != 0; and the expression trees "
+        "of the hash value (initial value, block update, tail and finalisation for every remainder) equal the reference algorithm's (constants, shifts, byte lanes, mix order). Value equality for every input is not decided as such.",
+   note="Reference trees are built in sa/rules/c14.py from MurmurHash2.cpp; an index-based block loop or a rewritten load_bytes is reported as analysis-broken (exit 2), never as a violation; x86-64 only."),
  "C20": dict(level="other", design="4.18",
    technique="API-misuse rule for every readlink site of the header (failure test, counted use, length < capacity by linear entailment, scalar locals read through), abstract string evaluation of prefix_path (cut = everything before the last separator), evaluation of endianness() for each value of the probe byte along every path under two include orders and three standards",
    text="Decides structural conditions on the Linux configuration: readlink's result is tested for failure, the path is built from the returned "
